@@ -91,8 +91,52 @@ type EntryTruth struct {
 	Skip     bool
 	Upstream string
 	Policy   *PolicySpec // set on refs/gittuf/policy entries produced by apply
+	Att      *AttState   // set on refs/gittuf/attestations entries: the approvals that state holds
 	Numbered bool
 }
+
+// Review is a code-review approval as the simulator stored it.
+type Review struct {
+	SignerKey int
+	Approvers []string
+	Dismissed []string
+}
+
+// AttState is the ground truth of one attestations state: which keys validly
+// signed the authorization stored for which exact change, and which reviews.
+type AttState struct {
+	Authorizations map[string]map[int]bool
+	Reviews        map[string]map[string]Review
+}
+
+func NewAttState() *AttState {
+	return &AttState{Authorizations: map[string]map[int]bool{}, Reviews: map[string]map[string]Review{}}
+}
+
+func (a *AttState) Clone() *AttState {
+	n := NewAttState()
+	if a == nil {
+		return n
+	}
+	for k, v := range a.Authorizations {
+		m := map[int]bool{}
+		for kk := range v {
+			m[kk] = true
+		}
+		n.Authorizations[k] = m
+	}
+	for k, v := range a.Reviews {
+		m := map[string]Review{}
+		for kk, r := range v {
+			m[kk] = r
+		}
+		n.Reviews[k] = m
+	}
+	return n
+}
+
+// ChangeKey names one exact change: reference, prior state, resulting tree.
+func ChangeKey(ref, from, toTree string) string { return ref + "|" + from + "|" + toTree }
 
 // CommitTruth describes a user commit the harness created.
 type CommitTruth struct {
@@ -126,6 +170,8 @@ type World struct {
 	Staged      *PolicySpec // last policy spec committed to staging
 	Outcomes    map[int]sched.Outcome
 	Verdicts    map[int]Verdict
+	Att         *AttState // current attestation ground truth
+	pendingAtt  *AttState
 	stagedSpecs map[string]*PolicySpec
 }
 
@@ -137,6 +183,15 @@ func New(nActors int) *World {
 	}
 	for i := 0; i < nActors; i++ {
 		w.AddActor(i)
+	}
+	return w
+}
+
+// NewWithKeys creates a world whose actor i owns key keys[i].
+func NewWithKeys(keys []int) *World {
+	w := New(0)
+	for _, k := range keys {
+		w.AddActor(k)
 	}
 	return w
 }
@@ -415,6 +470,13 @@ func (w *World) SyncTruth(opID, actor int, signer int, pol *PolicySpec) []*RawEn
 			Number: r.Number, Targets: r.Targets, Skip: r.Skip, Upstream: r.Upstream, Numbered: r.HasNum}
 		if r.Ref == policy.PolicyRef && pol != nil {
 			t.Policy = pol
+		}
+		if r.Ref == attestations.Ref && (r.Kind == "reference") {
+			if w.pendingAtt != nil {
+				w.Att = w.pendingAtt
+				w.pendingAtt = nil
+			}
+			t.Att = w.Att.Clone()
 		}
 		w.Entries = append(w.Entries, t)
 		w.ByOp[opID] = t
